@@ -10,7 +10,7 @@
 
 use crate::exec::*;
 use serde::{Deserialize, Serialize};
-use simcore::ast::QueryClass;
+use simcore::ast::{GoalSpec, QueryClass};
 use simcore::scenario::*;
 use std::collections::BTreeMap;
 
@@ -96,6 +96,27 @@ pub fn judge(property: &str, scn: &Scenario, rec: &RunRecord) -> Judgement {
             });
         }
     };
+
+    // reach of the program generator: which rarely used constructs this run's program contains
+    {
+        let text = scn.program_text().join(" ");
+        for (needle, name) in [
+            ("pair(", "program_has_complex_term_argument"),
+            ("functor(", "program_has_functor"),
+            ("include(", "program_has_include_exclude"),
+            ("exclude(", "program_has_include_exclude"),
+            ("join(", "program_has_join"),
+            ("time(", "program_has_time_goal"),
+            ("not(", "program_has_not"),
+        ] {
+            if text.contains(needle) {
+                bump(&mut cnt, name);
+            }
+        }
+        if scn.clauses.iter().any(|c| c.body.as_ref().map(|b| b.contains(&|g| matches!(g, GoalSpec::Cut))).unwrap_or(false)) {
+            bump(&mut cnt, "program_has_cut");
+        }
+    }
 
     for o in &rec.ops {
         let d = o.t_ret_us - o.t_call_us;
